@@ -682,21 +682,68 @@ def operator_rules(repo: Repo, rep, P: str):
     rep.count("operator_methods", n, 4)
     mod = repo.cls("Module", module="rv.modules.module")
     inv = mod.methods.get("__invert__")
-    if inv is not None and [norm(s.value) for s in inv.body if isinstance(s, ast.Return)] == ["DisconnectingModule(self)"]:
+    invn = inline.normalize(repo, mod, inv) if inv is not None else None
+    rets = [st.value for st in walk_no_nested(invn) if isinstance(st, ast.Return) and st.value is not None] if invn is not None else []
+    wraps = [r for r in rets if isinstance(r, ast.Call) and norm(r.func).split(".")[-1] == "DisconnectingModule"
+             and (any(norm(a) == "self" for a in r.args) or any(norm(k.value) == "self" for k in r.keywords))]
+    if rets and len(wraps) == len(rets):
         rep.ok(f"{P}.R5", f"{rel}:Module.__invert__", "return DisconnectingModule(self)")
-    else:
+    elif rets and not any(isinstance(r, ast.Call) for r in rets):
         rep.violation(f"{P}.R5", f"{rel}:Module.__invert__", norm(inv)[:100] if inv else "missing",
                       "~module must wrap the module in the disconnect marker", f"{rel}:{inv.lineno if inv else 0}")
-    dm = repo.cls("DisconnectingModule", module="rv.modules.module")
-    inv = dm.methods.get("__invert__")
-    init = dm.methods.get("__init__")
-    ok = inv is not None and any(isinstance(s, ast.Return) and "orig" in norm(s.value) for s in inv.body)
-    ok_init = init is not None and "orig" in norm(init)
-    if ok and ok_init:
-        rep.ok(f"{P}.R5", f"{rel}:DisconnectingModule", "__init__ stores orig; __invert__ returns it")
     else:
-        rep.violation(f"{P}.R5", f"{rel}:DisconnectingModule", "orig", "the disconnect marker no longer carries the original module",
+        rep.inconclusive(f"{P}.R5", f"{rel}:Module.__invert__", norm(inv)[:100] if inv else "missing",
+                         "construction of the disconnect marker not recognised", f"{rel}:{inv.lineno if inv else 0}")
+    dm = repo.cls("DisconnectingModule", module="rv.modules.module")
+
+    def key_written(fn) -> Optional[str]:
+        """K such that __init__ stores its parameter under instance-dictionary key K."""
+        ps = [a.arg for a in fn.args.args if a.arg != "self"]
+        for n in ast.walk(fn):
+            if isinstance(n, ast.Assign) and len(n.targets) == 1 and isinstance(n.targets[0], ast.Subscript) \
+                    and norm(n.targets[0].value) in ("self.__dict__", "vars(self)") and isinstance(n.targets[0].slice, ast.Constant) and norm(n.value) in ps:
+                return n.targets[0].slice.value
+            if isinstance(n, ast.Call) and isinstance(n.func, ast.Attribute) and n.func.attr == "update" and norm(n.func.value) in ("self.__dict__", "vars(self)"):
+                for k in n.keywords:
+                    if k.arg is not None and norm(k.value) in ps:
+                        return k.arg
+                if n.args and isinstance(n.args[0], ast.Dict):
+                    for kk, vv in zip(n.args[0].keys, n.args[0].values):
+                        if isinstance(kk, ast.Constant) and norm(vv) in ps:
+                            return kk.value
+            if isinstance(n, ast.Call) and norm(n.func) in ("object.__setattr__", "super().__setattr__") and len(n.args) >= 2:
+                args = n.args[1:] if norm(n.func) == "object.__setattr__" else n.args
+                if len(args) == 2 and isinstance(args[0], ast.Constant) and norm(args[1]) in ps:
+                    return args[0].value
+        return None
+
+    def key_read(fn) -> Optional[str]:
+        for st in walk_no_nested(fn):
+            if isinstance(st, ast.Return) and st.value is not None:
+                v = st.value
+                if isinstance(v, ast.Subscript) and norm(v.value) in ("self.__dict__", "vars(self)") and isinstance(v.slice, ast.Constant):
+                    return v.slice.value
+                if isinstance(v, ast.Call) and norm(v.func) in ("object.__getattribute__", "super().__getattribute__") and v.args \
+                        and isinstance(v.args[-1], ast.Constant):
+                    return v.args[-1].value
+                if norm(v) == "self":
+                    return "<self>"
+        return None
+    inv2, init2 = dm.methods.get("__invert__"), dm.methods.get("__init__")
+    kw_, kr_ = (key_written(inline.normalize(repo, dm, init2)) if init2 is not None else None,
+                key_read(inline.normalize(repo, dm, inv2, sf=dm.file, also=_module_helper_names(repo, dm.file))) if inv2 is not None else None)
+    if kw_ is not None and kw_ == kr_:
+        rep.ok(f"{P}.R5", f"{rel}:DisconnectingModule", "__init__ stores orig; __invert__ returns it")
+    elif kw_ is not None and kr_ is not None:
+        rep.violation(f"{P}.R5", f"{rel}:DisconnectingModule", f"stored under {kw_!r}, ~ returns {kr_!r}", "the disconnect marker no longer carries the original module",
                       f"{rel}:{dm.node.lineno}")
+    else:
+        rep.inconclusive(f"{P}.R5", f"{rel}:DisconnectingModule", f"stored under {kw_!r}, ~ returns {kr_!r}",
+                         "how the disconnect marker keeps the original module is not recognised", f"{rel}:{dm.node.lineno}")
+
+
+def _module_helper_names(repo: Repo, sf) -> Tuple[str, ...]:
+    return tuple(st.name for st in sf.tree.body if isinstance(st, ast.FunctionDef) and st.name.startswith("_"))
 
 
 # ------------------------------------------------------------------------------ R6
